@@ -4,7 +4,7 @@
    followed) and the part of src/fs/fs.go they call (CopyFile, WriteFile).  No proofs here.
 
    The wrapper argument tuples and WriteFile's default mode are regenerated from the source
-   (Gen.C34Copy.v). *)
+   (Gen/C34Copy.v). *)
 From PlzV Require Import Base.Harness Gen.C34Copy.
 
 (* ---------------------------------------------------------------- file trees ---------------- *)
@@ -154,19 +154,21 @@ Definition visit (k : cfg) (e : path * node) (d : dest) : R :=
   | File i pm c => copy_or_link k (fst e) (File i pm c) (OContent c) d
   end.
 
-Inductive outcome := Done (n : node) | Failed | Unsupported.
-
 (* the walk stops at the first error *)
-Fixpoint run_walk (k : cfg) (l : list (path * node)) (d : dest) : option outcome :=
+Inductive wres := WDone (d : dest) | WFailed | WUnsup.
+
+Fixpoint run_walk (k : cfg) (l : list (path * node)) (d : dest) : wres :=
   match l with
-  | [] => None
+  | [] => WDone d
   | e :: r =>
       match visit k e d with
-      | ROk n => match r with [] => Some (Done n) | _ => run_walk k r (Some n) end
-      | RErr => Some Failed
-      | RUnsup => Some Unsupported
+      | ROk n => run_walk k r (Some n)
+      | RErr => WFailed
+      | RUnsup => WUnsup
       end
   end.
+
+Inductive outcome := Done (n : node) | Failed | Unsupported.
 
 (* os.Open of a top-level symlink follows it.  Only targets that are a plain name in the same
    directory are described; fuel = number of entries + 1, so running out of fuel means a cycle
@@ -199,15 +201,17 @@ Definition copy_top (k : cfg) (w : world) (a b : str) : outcome :=
   | None => Failed                                                  (* Lstat(from) fails *)
   | Some (Dir es) =>
       match run_walk k (walk (Dir es)) (assoc b w) with
-      | Some o => o
-      | None => Failed   (* unreachable: a walk is never empty *)
+      | WDone (Some n) => Done n
+      | WDone None => Failed       (* unreachable: a walk is never empty *)
+      | WFailed => Failed
+      | WUnsup => Unsupported
       end
   | Some src => of_R (copy_or_link k [] src (open_node (S (length w)) w src) (assoc b w))
   end.
 
 (* RecursiveCopy(from, to, mode) and RecursiveLink(from, to): argument tuples from the source *)
-Definition cfg_of (args : N * bool * bool) (m : N) (lok : bool) : cfg :=
-  let '(m0, l, f) := args in Cfg (if recursive_copy_passes_mode && negb l then m else m0) l f lok.
+Definition cfg_of (args : option N * bool * bool) (m : N) (lok : bool) : cfg :=
+  let '(m0, l, f) := args in Cfg (match m0 with None => m | Some x => x end) l f lok.
 Definition recursive_copy (m : N) := cfg_of recursive_copy_args m true.
 Definition recursive_link (lok : bool) := cfg_of recursive_link_args 0 lok.
 
@@ -277,6 +281,27 @@ Fixpoint world_eqb (a b : world) : bool :=
   | _, _ => false
   end.
 
+(* A directory is a set of entries: both sides are compared with the entries sorted by name
+   (the harness lists them sorted; the model appends new entries). *)
+Fixpoint insert_e (e : str * node) (l : list (str * node)) : list (str * node) :=
+  match l with
+  | [] => [e]
+  | h :: r => if str_ltb (fst h) (fst e) then h :: insert_e e r else e :: l
+  end.
+
+Fixpoint canon (n : node) : node :=
+  match n with
+  | Dir es =>
+      Dir ((fix go (l : list (str * node)) : list (str * node) :=
+              match l with
+              | [] => []
+              | (x, c) :: r => insert_e (x, canon c) (go r)
+              end) es)
+  | _ => n
+  end.
+
+Definition canon_world (w : world) : world := map (fun e => (fst e, canon (snd e))) w.
+
 (* What the implementation did: no error and the whole directory afterwards (entries in the
    order of w, a new `to` last), or an error.  After an error only the error is compared: the
    destination may hold a partial copy and a temporary file with a random name. *)
@@ -288,7 +313,7 @@ Definition check (c : case) : bool :=
   match c with
   | Case k w a b o =>
       match copy_top k w a b, o with
-      | Done n, ObsOk after => world_eqb (set b n w) after
+      | Done n, ObsOk after => world_eqb (canon_world (set b n w)) (canon_world after)
       | Failed, ObsErr => true
       | _, _ => false
       end
